@@ -20,10 +20,6 @@ func init() {
 }
 
 func init() {
-	register(&PropCheck{ID: "PROBE", Pkgs: []string{"frame"}, FnRe: `^VerifProbe_`, Level: "model_checking", Rule: "probe"})
-}
-
-func init() {
 	register(&PropCheck{
 		ID: "C01", Pkgs: []string{"frame"}, FnRe: `^VerifC01_`, Level: "model_checking",
 		Gen:  func(c *CheckCtx) error { return genFrameHarnesses(c, "VerifC01_RT", `verifRoundTrip(%q, %s, verifModeC01)`) },
